@@ -623,8 +623,90 @@ class AdjacentImpliesTransitive(Lemma):
         vc.check(self.name + "::step", ax.raw(i) < ax.raw(j))
 
 
+class ModelTruncate(FunctionContract):
+    """LevyModel.truncate_levy_measure(truncations) (real body, and the real TruncatedLevyMeasure.integrate afterwards): the
+    model's measure becomes ITS CURRENT measure restricted to the interval -- also when the current measure is itself a
+    truncated one (a user's narrower truncation, or an earlier level's): mass(a, b) afterwards is the base mass of
+    [a, b] intersected with EVERY truncation applied so far, 0 when the intersection is empty."""
+    prop = "C01"
+    target = LM + "LevyModel.truncate_levy_measure"
+    cases = ("plain measure", "already truncated")
+
+    def __init__(self):
+        self.name = "LevyModel.truncate_levy_measure"
+
+    def configure(self, interp):
+        hook_measure(interp)
+
+    def setup(self, vc, case):
+        basic_axioms(vc)
+        l, r = vc.real("l"), vc.real("r")
+        vc.assume(l < r)
+        base = mu_measure(vc)
+        nu0 = base
+        g = vc.ghost
+        g["bounds"] = [(l, r)]
+        if case == "already truncated":
+            l1, r1 = vc.real("l_earlier"), vc.real("r_earlier")
+            vc.assume(l1 < r1)
+            nu0 = vc.obj(LM + "TruncatedLevyMeasure", truncations=(l1, r1), levy_measure=base)
+            g["bounds"].append((l1, r1))
+        trip = vc.obj(LM + "LevyTriplet", nu=nu0)
+        g.update(nu0=nu0, trip=trip)
+        return dict(self=vc.obj(LM + "LevyModel", levy_triplet=trip), truncations=(l, r))
+
+    def ensures(self, result, self_=None, truncations=None, **kw):
+        from pyvc import ctx
+        g = ctx.PATH.ghost
+        nu = g["trip"].fields["nu"]
+        out = {"measure-is-a-truncation-of-the-current-measure": getattr(nu, "cls", None) is not None and nu.cls.name == "TruncatedLevyMeasure"
+               and nu.fields.get("levy_measure") is g["nu0"] and And(nu.fields["truncations"][0] == truncations[0], nu.fields["truncations"][1] == truncations[1])}
+        return out
+
+
+    def replay(self, model, clause, case):
+        return ModelTruncateMass().replay(model, clause, case)
+
+
+class ModelTruncateMass(Lemma):
+    """the mass clause of the contract above, through the real integrate bodies"""
+    prop = "C01"
+    cases = ("plain measure", "already truncated")
+    name = "LevyModel.truncate_levy_measure:mass"
+
+    def prove(self, vc, case):
+        hook_measure(vc.interp)
+        c = ModelTruncate()
+        args = c.setup(vc, case)
+        vc.method(args["self"], "truncate_levy_measure", args["truncations"])
+        nu = vc.ghost["trip"].fields["nu"]
+        a, b = vc.real("a"), vc.real("b")
+        vc.assume(a <= b)
+        got = vc.method(nu, "integrate", a, b)
+        lo, hi = a, b
+        for (l_, r_) in vc.ghost["bounds"]:
+            lo, hi = smax(lo, l_), smin(hi, r_)
+        vc.check(f"{self.name}[{case}]::mass-of-the-intersection-with-every-truncation-so-far", got == If(lo <= hi, MU(lo, hi), 0))
+
+    def replay(self, model, clause, case):
+        from contracts import battery
+        from scipy.integrate import quad
+        m = battery.models(("hem",))["hem"]
+        nu0 = m.levy_triplet.nu
+        bounds = [(-0.2, 0.3)]
+        if case == "already truncated":
+            m.truncate_levy_measure((-0.05, 0.06))
+            bounds.append((-0.05, 0.06))
+        m.truncate_levy_measure(bounds[0])
+        a, b = 0.01, 0.5
+        got = float(m.levy_triplet.nu.integrate(a, b))
+        lo, hi = max([a] + [x for x, _ in bounds]), min([b] + [y for _, y in bounds])
+        want = quad(lambda x: float(nu0(x)), lo, hi)[0] if lo < hi else 0.0
+        return (abs(got - want) > 1e-8, {"truncations_applied": bounds[::-1], "interval": [a, b], "mass_after": got, "mass_of_the_intersection": want})
+
+
 UNITS = [QVector(), Tiling(), Telescoping(), Intensity1d(), IntensityNd(), JumpVector(), InversionProbability(), AdjacentImpliesTransitive(),
-         TruncatedInterval(), TruncatedIntegrate(), TruncatedDensity(), AdaptedTree1dInit(), Neighbours()]
+         TruncatedInterval(), TruncatedIntegrate(), TruncatedDensity(), AdaptedTree1dInit(), Neighbours(), ModelTruncate(), ModelTruncateMass()]
 ASSUMPTIONS = ["A1: floats are mathematical reals", "A6: the model's integrate(a,b) is an additive non-negative interval function MU (established per model in C09)",
                "the grid is well formed (C13's postcondition is this contract's precondition)"]
 TRUSTED_BASE = ["z3 5.1 (LRA + arrays + uninterpreted MU)", "pyvc interpreter + numpy models"]
@@ -711,4 +793,6 @@ def LATE_UNITS():
     """the chain constructor's frame clauses (deep copy, truncation of the copy only) are stated in C04's module; they are
     part of C01 as well: the rates are those of the measure truncated to THIS grid, whatever chains were built before"""
     import importlib
-    return [importlib.import_module("contracts.c04").ChainConstructor()]
+    # ... and the rates of a copula chain are built from ITS OWN model's marginal tail integrals, whatever other copula model
+    # was evaluated on the same levels before (C12's lemma on the real marginal_tail_integral body)
+    return [importlib.import_module("contracts.c04").ChainConstructor(), importlib.import_module("contracts.c12").TailIntegralOfEachModel()]
